@@ -275,7 +275,7 @@ package stackage
 //@ ensures[C03,C13:Push.len] pp == nil ==> (go ==> len(hdr(r)) == plen(old(Mem_Val), y, nn, cp, len0, n))
 //@ ensures[C03,C13:Push.stored] pp == nil ==> (go ==> forall j :: 0 <= j && j < n && stored(old(Mem_Val), y, nn, cp, len0, j) ==> slot(r, plen(old(Mem_Val), y, nn, cp, len0, j)) == old(y[j]))
 //@ ensures[C01,C03:Push.kept] r != nil ==> forall k :: 0 <= k && k < len0 ==> slot(r, k) == old(slot(r, k))
-//@ ensures[C09:Push.ro] r != nil && bit(o, 0x0080) ==> hdr(r) == old(hdr(r))
+//@ ensures[C09:Push.ro] r != nil && bit(o, 0x0080) ==> hdr(r) == old(hdr(r)) && Mem_Val[arr(hdr(r))] == old(Mem_Val[arr(hdr(r))]) && F_nodeConfig_err[cfgOf(r)] == old(F_nodeConfig_err[cfgOf(r)]) && F_nodeConfig_ldr[cfgOf(r)] == old(F_nodeConfig_ldr[cfgOf(r)]) && G_calls_len == c0 && alloc >= old(alloc)
 //@ ensures[C01,C03:Push.wf] r != nil ==> wf(r) && cfgOf(r) == old(cfgOf(r))
 //@ ensures[:Push.ret] result == r
 //@ ensures[:Push.own] r != nil ==> arr(hdr(r)) == old(arr(hdr(r))) || fresh(arr(hdr(r)))
@@ -1347,3 +1347,9 @@ package stackage
 //@ tags C11,C09
 //@ requires wfs(r) && okslice(str, alloc)
 //@ modifies fresh
+
+//@ func (logLevels).String
+//@ tags C11,C09
+//@ modifies fresh
+//@ loop 1 invariant arr(levels) == 0 || fresh(arr(levels))
+//@ loop 1 invariant forall a :: 0 <= a && a < old(alloc) ==> Mem_Str[a] == old(Mem_Str[a])
